@@ -11,7 +11,7 @@ import ast
 from tools.gen_c01 import MIRRORED as _SCHED
 from tools.translate import Untranslatable, _tree, find_def
 
-MIRRORED = list(_SCHED) + [('pl/worker/cluster.py', 'execute')]
+MIRRORED = list(_SCHED) + [('pl/worker/cluster.py', 'execute'), ('pl/farm.py', 'Hand._translate')]
 
 
 def _suc(stmts, where):
@@ -76,4 +76,121 @@ def gen_worker(repo):
     return 'WorkerGen', '\n'.join(L)
 
 
-GENERATORS = [gen_worker]
+_STATE = {'success': '.success', 'failure': '.failure', 'invalid': '.invalid'}
+
+
+def _state(node, where):
+    name = ast.unparse(node).split('.')[-1]
+    if not ast.unparse(node).endswith('State.' + name) or name not in _STATE:
+        raise Untranslatable(f'farm.Hand.{where}: not a schedule.State constant: {ast.unparse(node)}')
+    return _STATE[name]
+
+
+def _test(node, arg):
+    if isinstance(node, ast.Name) and node.id == arg:
+        return '.truthy'
+    if isinstance(node, ast.UnaryOp) and isinstance(node.op, ast.Not) and getattr(node.operand, 'id', '') == arg:
+        return '.falsy'
+    if (isinstance(node, ast.Compare) and getattr(node.left, 'id', '') == arg and len(node.ops) == 1
+            and isinstance(node.comparators[0], ast.Constant) and node.comparators[0].value is None):
+        if isinstance(node.ops[0], ast.Is):
+            return '.isNone'
+        if isinstance(node.ops[0], ast.IsNot):
+            return '.isNotNone'
+    raise Untranslatable(f'farm.Hand._translate: test outside the subset: {ast.unparse(node)}')
+
+
+def _sched_calls(stmts, where):
+    """the schedule.complete/update/purge calls among stmts, in order; stmts may only be expression statements,
+    (aug)assignments and `pass`"""
+    acts = []
+    for st in stmts:
+        if isinstance(st, (ast.Pass, ast.Assign, ast.AugAssign)):
+            if any(isinstance(n, ast.Call) and 'schedule.' in ast.unparse(n.func)
+                   and ast.unparse(n.func).split('.')[-1] in ('complete', 'update', 'purge') for n in ast.walk(st)):
+                raise Untranslatable(f'farm.Hand._res: scheduler call inside an assignment ({where})')
+            continue
+        if isinstance(st, ast.Expr) and isinstance(st.value, ast.Call):
+            fn = ast.unparse(st.value.func)
+            name = fn.split('.')[-1]
+            if fn.endswith('schedule.' + name) and name in ('complete', 'update', 'purge'):
+                args = [ast.unparse(a) for a in st.value.args]
+                want = {'complete': ['job', 'msg.runid', 'inc', 'msg.timing', 'state'],
+                        'update': ['msg.values', 'job', 'msg.runid'], 'purge': ['job', 'inc']}[name]
+                if args != want or st.value.keywords:
+                    raise Untranslatable(f'farm.Hand._res: {name}({", ".join(args)}) -- arguments outside the subset')
+                acts.append('.' + name)
+            continue   # logging and the like
+        raise Untranslatable(f'farm.Hand._res: statement outside the subset ({where}): {ast.unparse(st)[:60]}')
+    return acts
+
+
+def gen_hand(repo):
+    tree = _tree(repo, 'pl/farm.py')
+    tr_fn = find_def(tree, 'Hand._translate')
+    arg = tr_fn.args.args[0].arg
+    clauses, dflt = [], None
+    for st in tr_fn.body:
+        if dflt is not None:
+            raise Untranslatable('farm.Hand._translate: statements after the final return')
+        if isinstance(st, ast.If) and not st.orelse and len(st.body) == 1 and isinstance(st.body[0], ast.Return):
+            clauses.append(f'({_test(st.test, arg)}, {_state(st.body[0].value, "_translate")})')
+        elif isinstance(st, ast.Return) and st.value is not None:
+            dflt = _state(st.value, '_translate')
+        else:
+            raise Untranslatable(f'farm.Hand._translate: statement outside the subset: {ast.unparse(st)[:60]}')
+    if dflt is None:
+        raise Untranslatable('farm.Hand._translate: no final return')
+    fn = find_def(tree, 'Hand._res')
+    tries = [n for n in ast.walk(fn) if isinstance(n, ast.Try)]
+    if len(tries) != 1:
+        raise Untranslatable(f'farm.Hand._res: {len(tries)} try statements (expected one)')
+    tr = tries[0]
+    for h in tr.handlers:
+        if h.type is None or ast.unparse(h.type) != 'IndexError':
+            raise Untranslatable('farm.Hand._res: a handler other than `except IndexError`')
+        _ = _sched_calls([s for s in h.body if not isinstance(s, ast.Return)], 'handler')
+        if _:
+            raise Untranslatable('farm.Hand._res: scheduler calls inside the IndexError handler')
+    if tr.finalbody or tr.orelse:
+        raise Untranslatable('farm.Hand._res: finally/else on the try')
+    want = {'job': 'dawgie.pl.schedule.find(msg.jobid)', 'inc': "msg.incarnation if msg.incarnation else '__all__'",
+            'state': 'Hand._translate(msg.success)'}
+    seen, pre, branch = {}, [], None
+    for st in tr.body:
+        if isinstance(st, ast.Assign) and len(st.targets) == 1 and getattr(st.targets[0], 'id', '') in want:
+            if branch is not None or pre:
+                raise Untranslatable('farm.Hand._res: job/inc/state assigned after the first scheduler call')
+            seen[st.targets[0].id] = ast.unparse(st.value)
+        elif isinstance(st, ast.If):
+            if branch is not None:
+                raise Untranslatable('farm.Hand._res: more than one branch on the state')
+            t = st.test
+            if not (isinstance(t, ast.Compare) and getattr(t.left, 'id', '') == 'state' and len(t.ops) == 1
+                    and isinstance(t.ops[0], ast.Eq)):
+                raise Untranslatable(f'farm.Hand._res: branch test outside the subset: {ast.unparse(t)}')
+            branch = (_state(t.comparators[0], '_res'), _sched_calls(st.body, 'then'), _sched_calls(st.orelse, 'else'))
+        else:
+            acts = _sched_calls([st], 'try body')
+            if acts and branch is not None:
+                raise Untranslatable('farm.Hand._res: unconditional scheduler call after the branch')
+            pre += acts
+    if seen != want:
+        raise Untranslatable(f'farm.Hand._res: job/inc/state are not computed as expected: {seen}')
+    if branch is None:
+        branch = ('.success', [], [])
+    lst = lambda xs: '[' + ', '.join(xs) + ']'   # noqa: E731
+    L = ['import DawgieVerif.Model.Hand', '', 'namespace DawgieVerif.Generated.HandGen',
+         'open DawgieVerif.Sched DawgieVerif.Hand', '',
+         '/-- the `if .. return` clauses of `farm.Hand._translate`, in order -/',
+         'def clauses : List (Test × Outcome) := ' + lst(clauses), '',
+         '/-- its final `return` -/', f'def dflt : Outcome := {dflt}', '',
+         '/-- scheduler calls `farm.Hand._res` makes for every state, in order -/',
+         'def pre : List Act := ' + lst(pre), '',
+         '/-- the state its `if state == ..:` compares with, the calls under it, the calls under `else:` -/',
+         f'def cmp : Outcome := {branch[0]}', 'def thenA : List Act := ' + lst(branch[1]),
+         'def elseA : List Act := ' + lst(branch[2]), '', 'end DawgieVerif.Generated.HandGen', '']
+    return 'HandGen', '\n'.join(L)
+
+
+GENERATORS = [gen_worker, gen_hand]
